@@ -8,6 +8,7 @@ package worker
 // very large single writes.
 
 import (
+	"bufio"
 	"bytes"
 	"context"
 	"encoding/hex"
@@ -36,6 +37,7 @@ type C15Case struct {
 	Len   int    `json:"len"`   // bytes per active direction
 	Write string `json:"write"` // write segmentation: "one" | "rand" | "rand+empty" | "<n>"
 	Read  []int  `json:"read"`  // receiver buffer sizes, used cyclically
+	Copy  string `json:"copy"`  // "": plain Reads; "copy": the Reads of `read` once each, then io.Copy for the rest; "bufio": a bufio.Reader consumes read[0] bytes, then its WriteTo takes the rest
 	Seed  int64  `json:"seed"`
 	Class string `json:"class"`
 }
@@ -202,6 +204,109 @@ func c15Write(w io.Writer, data []byte, sizes []int, st *c15Stats) error {
 	}
 	st.add(0, len(sizes), empty, 0)
 	return nil
+}
+
+// errC15Done ends an io.Copy once the whole expected stream has arrived.
+var errC15Done = fmt.Errorf("expected stream complete")
+
+// c15CheckWriter is the destination of io.Copy / WriteTo: every Write is a
+// checkpoint of the prefix property.
+type c15CheckWriter struct {
+	want    []byte
+	got     int
+	writes  int
+	problem string
+}
+
+func (w *c15CheckWriter) Write(p []byte) (int, error) {
+	w.writes++
+	if w.got+len(p) > len(w.want) {
+		w.problem = fmt.Sprintf("bytes-beyond-end|the copy delivered %d bytes where only %d remained (offset %d)", len(p), len(w.want)-w.got, w.got)
+		return 0, fmt.Errorf("mismatch")
+	}
+	if !bytes.Equal(p, w.want[w.got:w.got+len(p)]) {
+		i := 0
+		for p[i] == w.want[w.got+i] {
+			i++
+		}
+		msg := fmt.Sprintf("first differing offset %d of %d: got %x want %x (write #%d of %d bytes by io.Copy/WriteTo after the small reads)",
+			w.got+i, len(w.want), p[i:min(len(p), i+8)], w.want[w.got+i:min(len(w.want), w.got+i+8)], w.writes, len(p))
+		if k := bytes.Index(w.want[w.got+i:], p[i:min(len(p), i+8)]); k > 0 && len(p)-i >= 8 {
+			msg += fmt.Sprintf("; the delivered bytes match the sender's stream %d bytes further on (bytes were dropped)", k)
+		}
+		w.problem = "bytes-altered|" + msg
+		return 0, fmt.Errorf("mismatch")
+	}
+	w.got += len(p)
+	if w.got == len(w.want) {
+		return len(p), errC15Done
+	}
+	return len(p), nil
+}
+
+// c15ReadPrefixCopy consumes the start of the stream with small Reads (or
+// through a bufio.Reader) and hands the rest to io.Copy / WriteTo, the way a
+// protocol parser reads a header and then streams the body.
+func c15ReadPrefixCopy(rd io.Reader, want []byte, prefix []int, mode string, st *c15Stats) (problem string, stalled bool) {
+	w := &c15CheckWriter{want: want}
+	reads := 0
+	defer func() { st.add(reads+w.writes, 0, 0, 0) }()
+	fail := func(err error) (string, bool) {
+		if ne, ok := err.(net.Error); ok && ne.Timeout() {
+			return fmt.Sprintf("stream-incomplete|no progress: %d of %d bytes after the bound (%v)", w.got, len(want), err), true
+		}
+		return fmt.Sprintf("stream-incomplete|error after %d of %d bytes: %v", w.got, len(want), err), false
+	}
+	var err error
+	if mode == "bufio" {
+		n := 5
+		if len(prefix) > 0 {
+			n = prefix[0]
+		}
+		br := bufio.NewReaderSize(rd, 16)
+		for i := 0; i < n && w.got < len(want); i++ {
+			b, e := br.ReadByte()
+			reads++
+			if e != nil {
+				return fail(e)
+			}
+			if _, e := w.Write([]byte{b}); e != nil && e != errC15Done {
+				return w.problem, false
+			}
+		}
+		if w.got < len(want) {
+			_, err = br.WriteTo(w)
+		}
+	} else {
+		for _, k := range prefix {
+			if w.got >= len(want) {
+				break
+			}
+			p := make([]byte, k)
+			n, e := rd.Read(p)
+			reads++
+			if n > 0 {
+				if _, we := w.Write(p[:n]); we != nil && we != errC15Done {
+					return w.problem, false
+				}
+			}
+			if e != nil {
+				return fail(e)
+			}
+		}
+		if w.got < len(want) {
+			_, err = io.Copy(w, rd)
+		}
+	}
+	switch {
+	case w.problem != "":
+		return w.problem, false
+	case w.got == len(want):
+		return "", false
+	case err != nil:
+		return fail(err)
+	}
+	return fmt.Sprintf("stream-incomplete|the copy returned without error after %d of %d bytes", w.got, len(want)), false
 }
 
 // c15ReadCheck reads exactly len(want) bytes with the given buffer sizes and
@@ -459,6 +564,13 @@ func c15Run(c C15Case, bound time.Duration) (res C15Result) {
 			c.Close()
 		}
 	}
+	// readWS is the reader used on the websocket-side connections (repo code)
+	readWS := func(rd io.Reader, want []byte, bufs []int) (string, bool) {
+		if c.Copy != "" {
+			return c15ReadPrefixCopy(rd, want, bufs, c.Copy, &st)
+		}
+		return c15ReadCheck(rd, want, bufs, &st)
+	}
 	rng := rand.New(rand.NewSource(c.Seed))
 	ab := c15Data(c.Seed, "a2b", c.Len) // A = websocket side, B = far side
 	ba := c15Data(c.Seed, "b2a", c.Len)
@@ -534,7 +646,7 @@ func c15Run(c C15Case, bound time.Duration) (res C15Result) {
 				}
 			})
 			if c.Topo == "handler" {
-				run(func() { problem(c15ReadCheck(a, ba, c.Read, &st)) })
+				run(func() { problem(readWS(a, ba, c.Read)) })
 			} else {
 				run(func() { problem(c15DrainRaw(raw, ba, &st)) })
 			}
@@ -576,7 +688,7 @@ func c15Run(c C15Case, bound time.Duration) (res C15Result) {
 						problem("write-failed|A->B "+err.Error(), false)
 					}
 				})
-				run(func() { problem(c15ReadCheck(b, ab, c.Read, &st)) })
+				run(func() { problem(readWS(b, ab, c.Read)) })
 				bsizes := c15Sizes(rand.New(rand.NewSource(c.Seed+2)), c.Write, len(ba))
 				run(func() {
 					if err := c15Write(b, ba, bsizes, &st); err != nil {
@@ -587,7 +699,7 @@ func c15Run(c C15Case, bound time.Duration) (res C15Result) {
 				for i, j := 0, len(rd)-1; i < j; i, j = i+1, j-1 {
 					rd[i], rd[j] = rd[j], rd[i]
 				}
-				run(func() { problem(c15ReadCheck(a, ba, rd, &st)) })
+				run(func() { problem(readWS(a, ba, rd)) })
 			} else {
 				frames, skipped := c15Frames(rng, ba, c15Sizes(rand.New(rand.NewSource(c.Seed+1)), c.Write, len(ba)))
 				st.add(0, len(frames), 0, skipped)
@@ -596,7 +708,7 @@ func c15Run(c C15Case, bound time.Duration) (res C15Result) {
 						problem("write-failed|raw B->A "+err.Error(), false)
 					}
 				})
-				run(func() { problem(c15ReadCheck(a, ba, c.Read, &st)) })
+				run(func() { problem(readWS(a, ba, c.Read)) })
 				run(func() {
 					if err := c15Write(a, ab, c15Sizes(rand.New(rand.NewSource(c.Seed+2)), "rand", len(ab)), &st); err != nil {
 						problem("write-failed|A->B "+err.Error(), false)
